@@ -440,8 +440,99 @@ fn blocking_destructor(e: &'static Engine, workers: usize, what: u8) {
     e.note("cancel");
 }
 
+/// the target holds locks when the cancel reaches it in a later blocking call: a Mutex guard, an RwLock write guard or an
+/// RwLock read guard (`what` 0 / 1 / 2). A waiter is queued behind it. The unwind must release the lock, hand it to the
+/// waiter, and must not poison it.
+fn cancel_while_holding(e: &'static Engine, workers: usize, what: u8, sleep: bool) {
+    rt_init(workers);
+    let m = Arc::new(Mutex::new(0u32));
+    let rw = Arc::new(RwLock::new(0u32));
+    static HOLDING: AtomicBool = AtomicBool::new(false);
+    e.begin();
+    let (m1, rw1) = (m.clone(), rw.clone());
+    let t = go!(move || {
+        let _a = Tracked::new(1);
+        let _g0 = if what == 0 { Some(m1.lock().unwrap()) } else { None };
+        let _g1 = if what == 1 { Some(rw1.write().unwrap()) } else { None };
+        let _g2 = if what == 2 { Some(rw1.read().unwrap()) } else { None };
+        HOLDING.store(true, Ordering::SeqCst);
+        if sleep {
+            coroutine::sleep(Duration::from_millis(5));
+        } else {
+            loop {
+                coroutine::park();
+            }
+        }
+    });
+    e.wait_flag(&HOLDING);
+    let (m2, rw2) = (m.clone(), rw.clone());
+    let w = go!(move || {
+        let _b = Tracked::new(2);
+        if what == 0 {
+            match m2.lock() {
+                Ok(mut g) => *g += 1,
+                Err(_) => W_GOT.store(99, Ordering::SeqCst),
+            }
+        } else {
+            match rw2.write() {
+                Ok(mut g) => *g += 1,
+                Err(_) => W_GOT.store(99, Ordering::SeqCst),
+            }
+        }
+    });
+    unsafe { t.coroutine().cancel() };
+    match t.join() {
+        Ok(()) if sleep => {}
+        Ok(()) => e.fail("cancel_ignored", "the parked target returned normally"),
+        Err(p) => {
+            if p.downcast_ref::<generator::Error>().is_none() {
+                e.fail("unexpected_panic", "the target ended with a panic that is not Cancel");
+            }
+        }
+    }
+    if w.join().is_err() {
+        e.fail("bystander_hurt", "the waiter behind the cancelled holder panicked");
+    }
+    if W_GOT.load(Ordering::SeqCst) == 99 {
+        e.fail("poisoned", "the waiter behind the cancelled holder found the lock poisoned");
+    }
+    if what == 0 {
+        match m.try_lock() {
+            Ok(g) => {
+                if *g != 1 {
+                    e.fail("lost_update", &format!("mutex value {} after one critical section", *g));
+                }
+            }
+            Err(TryLockError::WouldBlock) => e.fail("not_released", "the mutex is still locked after everybody finished"),
+            Err(TryLockError::Poisoned(_)) => e.fail("poisoned", "the cancellation unwind poisoned the mutex"),
+        };
+    } else {
+        match rw.try_write() {
+            Ok(g) => {
+                if *g != 1 {
+                    e.fail("lost_update", &format!("rwlock value {} after one critical section", *g));
+                }
+            }
+            Err(TryLockError::WouldBlock) => e.fail("not_released", "the rwlock is still held after everybody finished"),
+            Err(TryLockError::Poisoned(_)) => e.fail("poisoned", "the cancellation unwind poisoned the rwlock"),
+        };
+        super::c12::probe(e, &rw);
+    }
+    e.quiesce();
+    check_drops(e, 1..=2);
+    e.note("done");
+}
+
 pub fn build(quick: bool) -> Vec<Scenario> {
     let mut v = vec![];
+    for w in [1usize, 2] {
+        for (what, name) in [(0u8, "mutex"), (1, "rwlock_write"), (2, "rwlock_read")] {
+            v.push(Scenario::new("C09", "cancel_while_holding", format!("cancel.holding_{}.parked.w{}", name, w), Arc::new(move |e| cancel_while_holding(e, w, what, false))));
+            if w == 1 || !quick {
+                v.push(Scenario::new("C09", "cancel_while_holding", format!("cancel.holding_{}.sleeping.w{}", name, w), Arc::new(move |e| cancel_while_holding(e, w, what, true))).t2());
+            }
+        }
+    }
     for w in [1usize, 2] {
         for (what, name) in [(0u8, "mutex"), (1, "sem"), (2, "flag")] {
             v.push(Scenario::new("C09", "blocking_destructor", format!("cancel.destructor_blocks_on_{}.w{}", name, w), Arc::new(move |e| blocking_destructor(e, w, what))));
@@ -491,6 +582,10 @@ pub fn build(quick: bool) -> Vec<Scenario> {
         v.push(Scenario::new("C09", "cancel_vs_handoff", format!("cancel_vs_handoff.rwlock_writer.w{}", w), Arc::new(move |e| super::c12::handoff_vs_cancel(e, w, false))).bound(2));
         v.push(Scenario::new("C09", "cancel_vs_handoff", format!("cancel_vs_handoff.rwlock_reader.w{}", w), Arc::new(move |e| super::c12::handoff_vs_cancel(e, w, true))).bound(2));
         v.push(Scenario::new("C09", "cancel_vs_handoff", format!("cancel_vs_handoff.condvar.w{}", w), Arc::new(move |e| super::c11::cv_forward_sb(e, w))).bound(2));
+    }
+    // a detached target: its stack (and Park) is destroyed wherever its last step happens to run
+    for w in [1usize, 2] {
+        v.push(Scenario::new("C09", "cancel_detached", format!("cancel.detached_parker.w{}", w), Arc::new(move |e| super::c02::detached_parker(e, w, true, 1))).bound(2));
     }
     // never cancelled: nobody observes a cancellation
     for p in [Prim::Mutex, Prim::Sem, Prim::MpmcRecv] {
